@@ -71,6 +71,7 @@ def rule_ids(c, prog):
 
 def run(c, prog):
     rule_ids(c, prog)
-    from . import C14_rest
+    from . import C14_rest, C14_arm
     C14_rest.run(c, prog)
+    C14_arm.run(c, prog)
     c.not_decided += ["round trip for every payload (a run)", "String::from_utf8 (std)"]
